@@ -335,6 +335,13 @@ def main():
         "Destination handler: none of the methods listed here can turn the delivery code into Data-complete\n"
         "(C01): that is done only by a successful `_checksum_verify` (and for metadata-only transfers by\n"
         "`_handle_metadata_packet`).", only=nc_only, inline=("modP",))
+    files["InvSourceFsFrame.lean"] = gen(
+        "Source", "FsFrame", "FsEq", "f",
+        "/-- the filestore is (still) `F` -/\n"
+        "def FsEq (_ : Env) (F : Fs) (s : SrcSt) : Prop := s.fs = F",
+        "simp_all [FsEq]", {}, {},
+        "Source handler: NO method changes the filestore (C16): the sender only reads\n"
+        "(`file_exists`, `file_size`, `read_data`, `calculate_checksum`).", params="(F : Fs)")
     for n, t in files.items():
         (OUT / n).write_text(t)
         print("wrote", n)
